@@ -212,7 +212,7 @@ def decode_adaptive(c, r):
     """Returns (obs dict, None) or (None, reason)."""
     names = [e[0] for e in r["log"]]
     want = ["vector_norm", "vector_norm", "where", "vector_norm", "maximum", "maximum", "where", "minimum"]
-    if names != want:
+    if names[:7] != want[:7] or len(names) != 8 or names[7] not in ("minimum", "maximum"):
         return None, f"call sequence {names} != {want}"
     if len(r["vf"]) != 2:
         return None, f"{len(r['vf'])} vector-field evaluations, expected 2"
@@ -348,9 +348,11 @@ def classify(c, r, o):
             return "vf-nonfinite"
     if h == "dt0" and ymax < 1e-150:
         return "C18.dt0.zero-or-tiny-u0"
+    if ymax >= 1e150:
+        return f"C18.{h}.overflow-1e300"
     inter = [] if o is None else [o.get(k) for k in ("d0", "d1", "n2", "d2", "arg", "dt1_b") if k in o]
-    if o is not None and (not finite(inter) or ymax >= 1e150):
-        return f"C18.{h}.overflow-1e300" if ymax >= 1e150 else f"C18.{h}.overflow-badly-scaled"
+    if o is not None and not finite(inter):
+        return f"C18.{h}.overflow-badly-scaled"
     return f"C18.{h}.nonpositive-or-nonfinite"
 
 
